@@ -66,6 +66,8 @@ inductive Stmt where
   | forS (target iter : Expr) (body : List Stmt)
   /-- `try: body  except <Exception or bare>: handler` -/
   | tryS (body handler : List Stmt)
+  /-- `try: body  except <Cls>: handler` (one handler naming one class) -/
+  | tryC (body : List Stmt) (cls : String) (handler : List Stmt)
   | assertS (c : Expr)
   | pass
   /-- `continue` / `break` of the innermost `for` -/
@@ -130,6 +132,8 @@ structure World (m : Type → Type) (V : Type) where
   throw : {α : Type} → String → m α
   rethrow : {α : Type} → m α
   catchAll : {α : Type} → m α → m α → m α
+  /-- `except Cls:` - the handler runs only for that class (the world decides what counts as an instance) -/
+  catchCls : {α : Type} → String → m α → m α → m α
 
 variable {m : Type → Type} [Monad m] {V : Type}
 
@@ -246,6 +250,7 @@ def evalStmt (w : World m V) (loc : Locals V) : Stmt → m (Ctl V × Locals V)
     let vs ← w.iter iv
     forLoop (fun l v => do let l' ← assignTo w l t v; evalBlock w l' body) vs loc
   | .tryS body handler => w.catchAll (evalBlock w loc body) (evalBlock w loc handler)
+  | .tryC body cls handler => w.catchCls cls (evalBlock w loc body) (evalBlock w loc handler)
   | .assertS c => do
     let cv ← evalExpr w loc c
     if (← w.truthy cv) then pure (.next, loc) else w.throw "AssertionError"
